@@ -9,6 +9,7 @@ import (
 	"fmt"
 	"os"
 	"path/filepath"
+	"regexp"
 	"runtime"
 	"sort"
 	"strconv"
@@ -393,6 +394,14 @@ func cmdCheck(args []string) int {
 	}
 	sortObls(cc.obls)
 
+	// a clause is claimed when one of its instances (per return, per loop edge, per call site) is: an instance that did not
+	// exist on the pinned tree (a new path, a new call) and is not discharged violates the claimed clause
+	lockedStem := map[string]bool{}
+	for _, n := range lock.Obligations {
+		if !strings.HasPrefix(n, "safe/") {
+			lockedStem[clauseStem(n)] = true
+		}
+	}
 	locked := map[string]bool{}
 	for _, n := range lock.Obligations {
 		locked[n] = true
@@ -502,6 +511,12 @@ func cmdCheck(args []string) int {
 			nObl++
 			violations++
 			why := "obligation discharged on the pinned tree and is no longer discharged"
+			p := cc.writeReplay(o, why, rep)
+			vioLines = append(vioLines, fmt.Sprintf("VIOLATION property=%s replay=%s no-failing-input-found", *prop, p))
+		case !unclaimedOK[o.Name] && (o.Kind == "post" || o.Kind == "site" || strings.HasPrefix(o.Kind, "inv-")) && lockedStem[clauseStem(o.Name)] && !*writeLock:
+			nObl++
+			violations++
+			why := "a new instance (path, loop edge or call site that did not exist on the pinned tree) of a clause claimed for this property is not discharged"
 			p := cc.writeReplay(o, why, rep)
 			vioLines = append(vioLines, fmt.Sprintf("VIOLATION property=%s replay=%s no-failing-input-found", *prop, p))
 		default:
@@ -697,4 +712,11 @@ func safeBelongs(c *Contract, prop string) bool {
 		return false
 	}
 	return contractHasProp(c, prop)
+}
+
+var stemRe = regexp.MustCompile(`/(ret|edge)\d+|#\d+`)
+
+// the name of an obligation without its instance ordinals (return number, loop edge number, call-site ordinal)
+func clauseStem(n string) string {
+	return stemRe.ReplaceAllString(n, "")
 }
